@@ -113,11 +113,11 @@ Print Assumptions C17_gc_old_refuted.
    cli/archive.py of the working tree on every run (gen_archive_output_decision). *)
 Theorem C17_archive_output_location_is_the_sources : forall ex isdir cwd root name raw,
   Proofs.ArchiveOutCwd.choice_matches (handle_output_path ex isdir cwd root name raw)
-     (Model.ArchiveOut.handle_output_path (Proofs.ArchiveOutCwd.probe_of ex isdir cwd raw)) root name raw /\
-  Model.ArchiveOut.decision_code (Model.ArchiveOut.handle_output_path (Proofs.ArchiveOutCwd.probe_of ex isdir cwd raw)) =
-  (let p := Proofs.ArchiveOutCwd.probe_of ex isdir cwd raw in
+     (Model.ArchiveOut.handle_output_path (Proofs.ArchiveOutCwd.probe_of ex isdir cwd root name raw)) root name raw /\
+  Model.ArchiveOut.decision_code (Model.ArchiveOut.handle_output_path (Proofs.ArchiveOutCwd.probe_of ex isdir cwd root name raw)) =
+  (let p := Proofs.ArchiveOutCwd.probe_of ex isdir cwd root name raw in
    gen_archive_output_decision (Model.ArchiveOut.o_given p) (Model.ArchiveOut.o_exists p) (Model.ArchiveOut.o_is_dir p)
-                               (Model.ArchiveOut.o_parent_exists p) (Model.ArchiveOut.o_parent_is_dir p)).
+                               (Model.ArchiveOut.o_parent_exists p) (Model.ArchiveOut.o_parent_is_dir p) (Model.ArchiveOut.o_gen_exists p)).
 Proof.
   intros. split; [apply Proofs.ArchiveOutCwd.cwd_model_takes_the_decision|apply Proofs.ArchiveOutCwd.cwd_model_decision_is_the_sources].
 Qed.
